@@ -12,6 +12,9 @@ Definition b2n (b : bool) : nat := if b then 1 else 0.
 Lemma sumn_app l1 l2 : sumn (l1 ++ l2) = sumn l1 + sumn l2.
 Proof. induction l1 as [|a t IH]; simpl; auto. rewrite IH. lia. Qed.
 
+Lemma sumn_cons a l : sumn (a :: l) = a + sumn l.
+Proof. reflexivity. Qed.
+
 Lemma sumn_map_ext_in {A} (f h : A -> nat) (l : list A) :
   (forall x, In x l -> f x = h x) -> sumn (map f l) = sumn (map h l).
 Proof.
@@ -404,4 +407,308 @@ Proof.
   - split.
     + intros HP. rewrite HP in E. vm_compute in E. discriminate.
     + apply Qred_correct.
+Qed.
+
+(** * 6. Cliques, level L1: the recursion counts the k-subsets that are cliques *)
+
+Lemma sublists_k_0 l : sublists_k 0 l = [[]].
+Proof. destruct l; reflexivity. Qed.
+
+Lemma filter_forallb_sublists (p : nat -> bool) (l : list nat) :
+  forall k, filter (forallb p) (sublists_k k l) = sublists_k k (filter p l).
+Proof.
+  induction l as [|a t IH]; intros k.
+  - destruct k; reflexivity.
+  - destruct k as [|k].
+    + rewrite !sublists_k_0. reflexivity.
+    + change (sublists_k (S k) (a :: t)) with (map (cons a) (sublists_k k t) ++ sublists_k (S k) t).
+      rewrite filter_app, filter_map_comm. cbn [filter forallb].
+      destruct (p a) eqn:E.
+      * cbn [andb]. change (fun x => forallb p x) with (forallb p).
+        rewrite !IH. reflexivity.
+      * rewrite (filter_none (fun x => false && forallb p x)) by (intros; reflexivity).
+        rewrite IH. reflexivity.
+Qed.
+
+Lemma count_sub_0 adj l : count_sub adj 0 l = 1.
+Proof. unfold count_sub. rewrite sublists_k_0. reflexivity. Qed.
+
+Lemma count_sub_S_nil adj k : count_sub adj (S k) [] = 0.
+Proof. reflexivity. Qed.
+
+Lemma count_sub_cons adj k a t :
+  count_sub adj (S k) (a :: t) = count_sub adj k (filter (adj a) t) + count_sub adj (S k) t.
+Proof.
+  unfold count_sub.
+  change (sublists_k (S k) (a :: t)) with (map (cons a) (sublists_k k t) ++ sublists_k (S k) t).
+  rewrite filter_app, app_length, filter_map_comm, map_length. f_equal.
+  rewrite <- filter_forallb_sublists, filter_filter. reflexivity.
+Qed.
+
+Lemma count_sub_1 adj l : count_sub adj 1 l = length l.
+Proof.
+  induction l as [|a t IH]; [reflexivity|].
+  rewrite count_sub_cons, count_sub_0, IH. reflexivity.
+Qed.
+
+Lemma filter_comm {A} (p q : A -> bool) (l : list A) :
+  filter p (filter q l) = filter q (filter p l).
+Proof. rewrite !filter_filter. apply filter_ext. intros x. apply andb_comm. Qed.
+
+Lemma count_sub_perm adj :
+  (forall a b, adj a b = adj b a) ->
+  forall k (l l' : list nat), Permutation l l' -> count_sub adj k l = count_sub adj k l'.
+Proof.
+  intros Hsym. induction k as [|k IHk]; intros l l' HP.
+  - rewrite !count_sub_0. reflexivity.
+  - induction HP as [|x l l' HP IH|x y l|l l' l'' HP1 IH1 HP2 IH2].
+    + reflexivity.
+    + rewrite !count_sub_cons, IH. f_equal. apply IHk. apply perm_filter. exact HP.
+    + assert (E : adj y x = adj x y) by apply Hsym.
+      rewrite !count_sub_cons. cbn [filter]. rewrite E.
+      destruct (adj x y); [|lia].
+      destruct k as [|k]; [rewrite !count_sub_0; lia|].
+      rewrite !count_sub_cons. rewrite (filter_comm (adj x) (adj y) l). lia.
+    + rewrite IH1, IH2. reflexivity.
+Qed.
+
+(** cliques_rec only depends on its node list up to permutation. *)
+Lemma memn_perm x (s s' : list nat) : Permutation s s' -> memn x s = memn x s'.
+Proof.
+  intros HP. destruct (memn x s) eqn:E1, (memn x s') eqn:E2; auto.
+  - apply memn_In in E1. apply (Permutation_in _ HP) in E1. apply memn_In in E1. congruence.
+  - apply memn_In in E2. apply (Permutation_in _ (Permutation_sym HP)) in E2. apply memn_In in E2. congruence.
+Qed.
+
+Lemma inter_perm l (s s' : list nat) : Permutation s s' -> inter l s = inter l s'.
+Proof. intros HP. unfold inter. apply filter_ext. intros w. apply memn_perm. exact HP. Qed.
+
+(** [hc d j s]: what the recursion computes on a candidate list at depth j (0: its length). *)
+Definition hc (d : graph) (j : nat) (s : list nat) : nat :=
+  match j with O => length s | S j' => cliques_rec d j' s end.
+
+Lemma cliques_rec_hc d j s :
+  cliques_rec d j s = sumn (map (fun u => hc d j (inter (row d u) s)) s).
+Proof. destruct j; reflexivity. Qed.
+
+(** The DAG [d] orients the symmetric relation [adj] on the nodes < n by the injective key [ord]. *)
+Definition dag_of (adj : nat -> nat -> bool) (ord : nat -> nat) (n : nat) (d : graph) : Prop :=
+  (forall a b, adj a b = adj b a) /\
+  (forall a b, a < n -> b < n -> ord a = ord b -> a = b) /\
+  (forall u, u < n -> NoDup (row d u) /\
+     forall w, In w (row d u) <-> (w < n /\ adj u w = true /\ ord u < ord w)).
+
+(** Insertion sort by key, to put a candidate list in orientation order. *)
+Fixpoint ins (ord : nat -> nat) (a : nat) (l : list nat) : list nat :=
+  match l with
+  | [] => [a]
+  | b :: t => if ord a <=? ord b then a :: b :: t else b :: ins ord a t
+  end.
+Definition isort (ord : nat -> nat) (l : list nat) : list nat := fold_right (ins ord) [] l.
+
+Lemma ins_perm ord a l : Permutation (a :: l) (ins ord a l).
+Proof.
+  induction l as [|b t IH]; simpl; [reflexivity|].
+  destruct (ord a <=? ord b); [reflexivity|].
+  eapply perm_trans; [apply perm_swap|]. apply perm_skip. exact IH.
+Qed.
+
+Lemma isort_perm ord l : Permutation l (isort ord l).
+Proof.
+  induction l as [|a t IH]; simpl; [reflexivity|].
+  eapply perm_trans; [apply perm_skip; exact IH|]. apply ins_perm.
+Qed.
+
+Definition ole (ord : nat -> nat) (a b : nat) : Prop := ord a <= ord b.
+
+Lemma ins_sorted ord a l : StronglySorted (ole ord) l -> StronglySorted (ole ord) (ins ord a l).
+Proof.
+  induction 1 as [|b t Ht IH Hb]; simpl; [repeat constructor|].
+  destruct (Nat.leb_spec (ord a) (ord b)) as [L|L].
+  - constructor; [constructor; auto|]. constructor; [exact L|].
+    rewrite Forall_forall in *. intros x Hx. specialize (Hb x Hx). unfold ole in *. lia.
+  - constructor; [exact IH|]. rewrite Forall_forall in *. intros x Hx.
+    apply (Permutation_in _ (Permutation_sym (ins_perm ord a t))) in Hx.
+    destruct Hx as [<-|Hx]; [unfold ole; lia|]. apply Hb. exact Hx.
+Qed.
+
+Lemma isort_sorted ord l : StronglySorted (ole ord) (isort ord l).
+Proof. induction l as [|a t IH]; simpl; [constructor|]. apply ins_sorted. exact IH. Qed.
+
+Lemma inter_nodup l s : NoDup l -> NoDup (inter l s).
+Proof. intros H. unfold inter. apply NoDup_filter. exact H. Qed.
+
+Lemma in_inter x l s : In x (inter l s) <-> In x l /\ In x s.
+Proof. unfold inter. rewrite filter_In, memn_In. reflexivity. Qed.
+
+(** Key step on a list in orientation order. *)
+Lemma cliques_step_sorted adj ord n d :
+  dag_of adj ord n d ->
+  forall k s, StronglySorted (ole ord) s -> NoDup s -> (forall x, In x s -> x < n) ->
+  sumn (map (fun u => count_sub adj k (inter (row d u) s)) s) = count_sub adj (S k) s.
+Proof.
+  intros [Hsym [Hinj HR]] k s HS. induction HS as [|a t Ht IH Ha]; intros Hnd Hlt.
+  - reflexivity.
+  - rewrite count_sub_cons. cbn [map]. rewrite sumn_cons.
+    apply NoDup_cons_iff in Hnd. destruct Hnd as [Hat Hndt].
+    assert (Han : a < n) by (apply Hlt; left; reflexivity).
+    assert (Hltt : forall x, In x t -> x < n) by (intros x Hx; apply Hlt; right; exact Hx).
+    rewrite Forall_forall in Ha.
+    assert (Hlt_a : forall w, In w t -> ord a < ord w).
+    { intros w Hw. specialize (Ha w Hw). unfold ole in Ha.
+      destruct (Nat.eq_dec (ord a) (ord w)) as [E|Ne]; [|lia].
+      apply Hinj in E; auto. subst w. contradiction. }
+    f_equal.
+    + (* the head: its candidates are exactly the later neighbours *)
+      apply count_sub_perm; [exact Hsym|].
+      destruct (HR a Han) as [Hnda Hrow].
+      apply NoDup_Permutation; [apply inter_nodup; exact Hnda|apply NoDup_filter; exact Hndt|].
+      intros w. rewrite in_inter, filter_In, Hrow. split.
+      * intros [[Hwn [Hadj Hord]] [E|Hw]]; [subst w; lia|]. split; assumption.
+      * intros [Hw Hadj]. split; [|right; exact Hw].
+        split; [apply Hltt; exact Hw|]. split; [exact Hadj|apply Hlt_a; exact Hw].
+    + (* the tail: a is not an out-neighbour of any later node *)
+      rewrite <- IH by assumption.
+      apply sumn_map_ext_in. intros u Hu. f_equal.
+      unfold inter. apply filter_ext_in. intros w Hw. rewrite memn_cons.
+      destruct (Nat.eqb_spec w a) as [E|Ne]; [|reflexivity]. exfalso. subst w.
+      destruct (HR u (Hltt u Hu)) as [_ Hrow]. apply Hrow in Hw.
+      specialize (Hlt_a u Hu). lia.
+Qed.
+
+Lemma cliques_step adj ord n d :
+  dag_of adj ord n d ->
+  forall k s, NoDup s -> (forall x, In x s -> x < n) ->
+  sumn (map (fun u => count_sub adj k (inter (row d u) s)) s) = count_sub adj (S k) s.
+Proof.
+  intros Hd k s Hnd Hlt.
+  pose proof (isort_perm ord s) as HP.
+  rewrite (count_sub_perm adj (proj1 Hd) (S k) s (isort ord s) HP).
+  rewrite <- (cliques_step_sorted adj ord n d Hd k (isort ord s)).
+  - rewrite (sumn_perm _ _ (Permutation_map _ HP)).
+    apply sumn_map_ext_in. intros u _. rewrite (inter_perm _ _ _ HP). reflexivity.
+  - apply isort_sorted.
+  - apply (Permutation_NoDup HP). exact Hnd.
+  - intros x Hx. apply Hlt. apply (Permutation_in _ (Permutation_sym HP)). exact Hx.
+Qed.
+
+Lemma hc_count_sub adj ord n d :
+  dag_of adj ord n d ->
+  forall j s, NoDup s -> (forall x, In x s -> x < n) -> hc d j s = count_sub adj (S j) s.
+Proof.
+  intros Hd. induction j as [|j IH]; intros s Hnd Hlt.
+  - simpl. rewrite count_sub_1. reflexivity.
+  - change (hc d (S j) s) with (cliques_rec d j s). rewrite cliques_rec_hc.
+    rewrite <- (cliques_step adj ord n d Hd (S j) s Hnd Hlt).
+    apply sumn_map_ext_in. intros u Hu. apply IH.
+    + apply inter_nodup. destruct Hd as [_ [_ HR]]. apply (HR u). apply Hlt. exact Hu.
+    + intros x Hx. apply in_inter in Hx. apply Hlt. tauto.
+Qed.
+
+(** L1 recursion = number of k-subsets of the nodes that are cliques, for every k >= 2 and every
+    orientation of the edges by an injective key. *)
+Theorem cliques_L1_exact adj ord (d : graph) (k : nat) :
+  dag_of adj ord (length d) d -> 2 <= k ->
+  count_cliques_from_dag_L1 d k = cliques_spec adj (length d) k.
+Proof.
+  intros Hd Hk. unfold count_cliques_from_dag_L1, cliques_spec.
+  replace k with (S (S (k - 2))) at 2 by lia.
+  rewrite <- (hc_count_sub adj ord (length d) d Hd (S (k - 2))).
+  - reflexivity.
+  - apply seq_NoDup.
+  - intros x Hx. apply in_seq in Hx. lia.
+Qed.
+
+Lemma adjb_sym g a b : adjb g a b = adjb g b a.
+Proof. unfold adjb. apply orb_comm. Qed.
+
+Lemma nthz_map_of_nat (l : list nat) u : nthz (map Z.of_nat l) u = Z.of_nat (nthn l u).
+Proof. unfold nthz, nthn. change 0%Z with (Z.of_nat 0). apply map_nth. Qed.
+
+Lemma dag_of_get_dag (g : graph) (argsort : list nat) :
+  wf_graph g -> (forall u, NoDup (row g u)) -> (forall u v, In v (row g u) -> In u (row g v)) ->
+  NoDup argsort -> length argsort = length g ->
+  dag_of (adjb g) (nthn argsort) (length g) (get_dag g (map Z.of_nat argsort)).
+Proof.
+  intros Hwf Hnd Hsym Hnda Hlen. split; [apply adjb_sym|]. split.
+  - intros a b Ha Hb E. unfold nthn in E.
+    apply (proj1 (NoDup_nth argsort 0) Hnda a b); [lia|lia|exact E].
+  - intros u Hu. split.
+    + rewrite row_get_dag by exact Hu. apply NoDup_filter. apply Hnd.
+    + intros w. rewrite get_dag_exact; [|exact Hwf|rewrite map_length; exact Hlen|exact Hu].
+      rewrite !nthz_map_of_nat. split.
+      * intros [Hin [_ Hlt]]. split; [exact (Hwf _ _ Hin)|]. split; [|lia].
+        unfold adjb. apply orb_true_iff. left. apply memn_In. exact Hin.
+      * intros [_ [Hadj Hlt]]. split; [|lia].
+        unfold adjb in Hadj. apply orb_true_iff in Hadj.
+        destruct Hadj as [H|H]; apply memn_In in H; [exact H|apply Hsym; exact H].
+Qed.
+
+(** count_cliques at level L1 on an undirected graph (symmetric pattern, duplicate-free rows), for
+    every answer of argsort that is a permutation of the nodes, and every k >= 2. *)
+Theorem count_cliques_L1_exact (g : graph) (k : nat) (argsort : list nat) :
+  wf_graph g -> (forall u, NoDup (row g u)) -> (forall u v, In v (row g u) -> In u (row g v)) ->
+  NoDup argsort -> length argsort = length g -> 2 <= k ->
+  count_cliques_L1 g k argsort = Ok (cliques_spec (adjb g) (length g) k).
+Proof.
+  intros Hwf Hnd Hsym Hnda Hlen Hk. unfold count_cliques_L1.
+  destruct (Nat.ltb_spec k 2) as [L|_]; [lia|]. f_equal.
+  pose proof (dag_of_get_dag g argsort Hwf Hnd Hsym Hnda Hlen) as Hd.
+  rewrite <- (get_dag_length g (map Z.of_nat argsort)) in Hd at 1.
+  rewrite (cliques_L1_exact (adjb g) (nthn argsort) _ k Hd Hk).
+  rewrite get_dag_length. reflexivity.
+Qed.
+
+(** * MinHeap, level L0 (partial): under the heap invariant the popped node has minimum score *)
+
+Lemma parent_lt (i : nat) : 0 < i -> Z.to_nat (parent i) < i.
+Proof.
+  intros H. unfold parent.
+  assert (H1 : ((Z.of_nat i - 1) / 2 <= Z.of_nat i - 1)%Z) by (apply Z.div_le_upper_bound; lia).
+  assert (H2 : (0 <= (Z.of_nat i - 1) / 2)%Z) by (apply Z.div_pos; lia).
+  lia.
+Qed.
+
+Lemma parent_0 : parent 0 = (-1)%Z.
+Proof. reflexivity. Qed.
+
+Lemma heap_root_min (h : heap) (scores : list Z) :
+  heap_ok h scores -> forall i, i < h_size h -> (score_at h scores 0 <= score_at h scores i)%Z.
+Proof.
+  intros [_ [_ Hord]] i. induction i as [i IH] using lt_wf_ind. intros Hi.
+  destruct (Nat.eq_dec i 0) as [->|Ne]; [lia|].
+  pose proof (parent_lt i ltac:(lia)) as Hp.
+  specialize (Hord i ltac:(lia) Hi).
+  specialize (IH _ Hp ltac:(lia)). lia.
+Qed.
+
+Lemma pop_min_root (h : heap) (scores : list Z) : fst (pop_min h scores) = nthn (h_val h) 0.
+Proof. unfold pop_min. destruct (h_size h =? 1); reflexivity. Qed.
+
+Theorem heap_pop_is_min_partial (h : heap) (scores : list Z) :
+  heap_ok h scores -> 0 < h_size h ->
+  let m := fst (pop_min h scores) in
+  m = nthn (h_val h) 0 /\
+  forall i, i < h_size h -> (nthz scores m <= nthz scores (nthn (h_val h) i))%Z.
+Proof.
+  intros Hok Hs. cbv zeta. rewrite pop_min_root. split; [reflexivity|].
+  intros i Hi. exact (heap_root_min h scores Hok i Hi).
+Qed.
+
+(** A popped node keeps pos = 0 (the code never clears it): decrease_key on it does nothing. *)
+Theorem decrease_key_stale_noop (h : heap) (i : nat) (scores : list Z) :
+  nthn (h_pos h) i = 0 -> decrease_key h i scores = h.
+Proof.
+  intros H. unfold decrease_key. rewrite H. destruct (0 <? h_size h); reflexivity.
+Qed.
+
+Lemma heap_ok_b_sound (h : heap) (scores : list Z) : heap_ok_b h scores = true -> heap_ok h scores.
+Proof.
+  unfold heap_ok_b. intros H. apply andb_true_iff in H. destruct H as [H H3].
+  apply andb_true_iff in H. destruct H as [H1 H2].
+  rewrite forallb_forall in H2, H3. split; [apply Nat.leb_le; exact H1|]. split.
+  - intros i Hi. specialize (H2 i ltac:(apply in_seq; lia)).
+    apply andb_true_iff in H2. destruct H2 as [A B].
+    apply Nat.ltb_lt in A. apply Nat.eqb_eq in B. split; assumption.
+  - intros i Hi0 Hi. specialize (H3 i ltac:(apply in_seq; lia)). apply Z.leb_le in H3. exact H3.
 Qed.
